@@ -8,6 +8,7 @@ import (
 	"strconv"
 	"strings"
 	"syscall"
+	"unicode/utf16"
 
 	"github.com/robertkrimen/otto"
 	"pgregory.net/rapid"
@@ -24,7 +25,13 @@ import (
 
 var fsKinds = []string{"undefined", "null", "boolean", "number", "string", "object", "array", "function", "regexp", "date", "error", "trap", "trapfn", "negative", "big", "nan",
 	"regexp_neg", "error_child", "proto_null", "date_invalid", "string_obj", "args", "frozen_array", "sparse", "bound", "empty_string", "infinity", "pos_infinity", "max_int", "min_int", "tiny",
-	"hs_group", "hs_class", "hs_backslash", "hs_quant", "hs_percent", "hs_surrogate", "hs_long", "hs_json"}
+	"hs_group", "hs_class", "hs_backslash", "hs_quant", "hs_percent", "hs_surrogate", "hs_long", "hs_json",
+	"regexp_proto", "bound_bare", "utf16_digits", "utf16_surrogate", "fn_src_break", "dollar_nn", "date_proto", "error_proto", "string_proto", "array_proto", "function_proto", "number_proto", "boolean_proto"}
+
+// kinds used when two positions vary together (the full product of all kinds
+// would be 50x50 per function)
+var pairKinds = []string{"undefined", "null", "number", "string", "object", "array", "function", "regexp", "date", "trap", "trapfn", "negative", "big", "nan",
+	"pos_infinity", "max_int", "empty_string", "utf16_digits", "args", "proto_null", "regexp_proto", "hs_long"}
 
 const fsPreludeJS = `
 var __n=0, __k=0, __mode='throw';
@@ -71,6 +78,19 @@ function __mk(kind){
   case 'max_int': return 9223372036854775807;
   case 'min_int': return -9223372036854775808;
   case 'tiny': return 5e-324;
+  case 'regexp_proto': return RegExp.prototype;
+  case 'date_proto': return Date.prototype;
+  case 'error_proto': return Error.prototype;
+  case 'string_proto': return String.prototype;
+  case 'array_proto': return Array.prototype;
+  case 'function_proto': return Function.prototype;
+  case 'number_proto': return Number.prototype;
+  case 'boolean_proto': return Boolean.prototype;
+  case 'bound_bare': return Function.prototype.bind();
+  case 'utf16_digits': return String.fromCharCode(49,50);
+  case 'utf16_surrogate': return String.fromCharCode(97,0xD800);
+  case 'fn_src_break': return '}) + (function(){';
+  case 'dollar_nn': return 'x$10$25$0$&$\x60$\'$$$';
   case 'hs_group': return 'a(b(?';
   case 'hs_class': return '[z-a';
   case 'hs_backslash': return 'x\\';
@@ -533,6 +553,9 @@ func (e fsEngine) Exec(ci interface{}, st *Stats) (*Violation, interface{}, bool
 	if c.Fault == "history" {
 		return execHistory(c, st)
 	}
+	if c.Fault == "strsweep" {
+		return execStrSweep(c, st)
+	}
 	if c.Fault == "apisweep" {
 		// uncaught throw of a value of this kind, and the Value/Object accessors
 		// on a returned value of this kind, under every fault
@@ -600,7 +623,7 @@ func (e fsEngine) Exec(ci interface{}, st *Stats) (*Violation, interface{}, bool
 				continue
 			}
 			// one varying position at a time, the others benign
-			for pos := 0; pos < 3; pos++ {
+			for pos := 0; pos < 3 && !c.Pairs; pos++ {
 				for _, kind := range fsKinds {
 					cell := &FSCase{Engine: "faultsweep", Path: path, New: isNew, Recv: defaultRecv(path), Args: []string{"number", "number"}}
 					switch pos {
@@ -633,8 +656,8 @@ func (e fsEngine) Exec(ci interface{}, st *Stats) (*Violation, interface{}, bool
 				}
 			}
 			if c.Pairs {
-				for _, k1 := range fsKinds {
-					for _, k2 := range fsKinds {
+				for _, k1 := range pairKinds {
+					for _, k2 := range pairKinds {
 						for _, k3 := range []string{"number", "trap", "undefined", "string"} {
 							for _, f := range [][2]interface{}{{"none", 0}, {"throw", 2}, {"throw", 4}, {"irq", 3}, {"limit", 5}} {
 								cc := FSCase{Engine: "faultsweep", Path: path, New: isNew, Recv: k1, Args: []string{k2, k3}, Fault: f[0].(string), K: f[1].(int)}
@@ -655,6 +678,89 @@ func (e fsEngine) Exec(ci interface{}, st *Stats) (*Violation, interface{}, bool
 }
 
 var collectMode bool
+
+// well-formed "special" strings; every prefix of each (a token cut short at an
+// arbitrary point) is fed, as a plain and as a UTF-16 backed string, to every
+// built-in in several call shapes
+var strTemplates = []string{
+	"$10$2$&$`$'$$", "x$1y$25z", "%u0041%u12G4", "%E4%B8%AD%F0%9F%98%80", "%25%2", "a(b(?:c)(?=d)(?!e))[f-h]{2,3}\\1\\b\\u0041\\x41\\cA",
+	"(?<n>a)\\k<n>", "[\\]-a]{1,", "{\"a\":[1,2.5e3,\"\\u00e9\\n\",true,null,{\"b\":{}}]}", "2001-02-03T04:05:06.789+01:30",
+	"Sat, 03 Feb 2001 04:05:06 GMT", "0x1F.8e+3", "-1.5e-310", "12345678901234567890123", "\\u{1F600}\\ud83d\\ude00\\0", "http://a:b@c.d:80/e;f?g=h&i=%C3%A9#j",
+	"}) + (function(){", "a,b){return 1}, function(c", "return /*", "//# sourceMappingURL=data:application/json;base64,e30=", "use strict", "__proto__",
+	"constructor", "valueOf", "toString", "length", "\\", "\u2028\u2029\ufeff\u00a0",
+}
+
+func execStrSweep(c *FSCase, st *Stats) (*Violation, interface{}, bool) {
+	tmpl := strTemplates[c.From]
+	r := newFSRuntime()
+	runes := []rune(tmpl)
+	shapes := []string{
+		"%[1]s.call(S)", "%[1]s.call(S,S)", "%[1]s.call('ab2,c',S)", "%[1]s.call('ab2,c',/b(2)?/g,S)", "%[1]s.call('ab2,c','b',S)",
+		"%[1]s.call(S,/a/,S)", "%[1]s(S)", "%[1]s(S,S)", "new %[1]s(S)", "new %[1]s(S,S)", "%[1]s.call(S,1,S)", "%[1]s.call([S,S],S)",
+	}
+	paths := append(append([]string{}, builtinPaths...), "Function", "eval", "Date")
+	seed, _ := strconv.Atoi(os.Getenv("VERIF_SEED"))
+	for n := 0; n <= len(runes); n++ {
+		if !c.Pairs && n != 0 && n != len(runes) && (n+seed)%4 != 0 {
+			continue // quick tier: a seed-selected quarter of the cut points (plus both ends)
+		}
+		prefix := string(runes[:n])
+		for enc := 0; enc < 2; enc++ {
+			var mk string
+			if enc == 0 {
+				mk = strconv.Quote(prefix)
+			} else {
+				var codes []string
+				for _, u := range utf16.Encode([]rune(prefix)) {
+					codes = append(codes, strconv.Itoa(int(u)))
+				}
+				mk = "String.fromCharCode(" + strings.Join(codes, ",") + ")"
+			}
+			for _, path := range paths {
+				if path == "Date" && true {
+					// Date(S) as a function reads the clock but asserts nothing on the value
+				}
+				for si, shape := range shapes {
+					if strings.HasPrefix(shape, "new ") && strings.Contains(path, ".prototype.") {
+						continue
+					}
+					if !c.Pairs && (si+n+enc)%2 == 1 {
+						continue // quick tier: half of the call shapes per cut point
+					}
+					src := "(function(){var S=" + mk + ";return " + fmt.Sprintf(shape, path) + "})()"
+					st.Runs++
+					st.Fault("token_truncated_string")
+					val, err, panicked, pv := protectedRun(r.vm, src)
+					bad := ""
+					if panicked {
+						bad = fmt.Sprintf("Run panicked with %T: %v", pv, clip(fmt.Sprint(pv)))
+					} else if err == nil && si%4 == 0 {
+						bad = valueAccessors(r.vm, val)
+					}
+					if panicked {
+						r = newFSRuntime()
+					}
+					if bad != "" {
+						x := viol("C02", "go_panic_escaped", "`%s`: %s", src, bad)
+						x.Key = "str " + path + " shape " + strconv.Itoa(si)
+						if kf := isKnown(x); kf != nil {
+							st.Known[kf.Property+" "+kf.Key]++
+							continue
+						}
+						if collectMode {
+							st.Probes["COLLECT "+x.Class+" | "+x.Key+" | "+clip(x.Detail)]++
+							continue
+						}
+						return x, &FSCase{Engine: "faultsweep", Prog: src, Fault: "prop"}, true
+					}
+				}
+			}
+		}
+	}
+	st.NonTrivial++
+	st.Sig(hashStr("str", tmpl))
+	return nil, nil, true
+}
 
 // short operation histories on one array / object: receiver states that no
 // single call creates (non-configurable elements, rolled-back length, ...)
@@ -721,8 +827,14 @@ func (fsEngine) Enumerate(tier string) []interface{} {
 	var out []interface{}
 	seed, _ := strconv.Atoi(os.Getenv("VERIF_SEED"))
 	for i, from := 0, 0; from < len(builtinPaths); i, from = i+1, from+width {
-		// quick: all kind pairs only for a seed-selected sixth of the surface
-		out = append(out, &FSCase{Engine: "faultsweep", From: from, To: from + width, Pairs: tier == "thorough" || (i+seed)%16 == 0})
+		out = append(out, &FSCase{Engine: "faultsweep", From: from, To: from + width})
+	}
+	// all kind pairs: for every function in the thorough tier, for a seed-selected
+	// sixteenth of the surface in the quick tier; one function per case
+	for i := range builtinPaths {
+		if tier == "thorough" || (i+seed)%16 == 0 {
+			out = append(out, &FSCase{Engine: "faultsweep", From: i, To: i + 1, Pairs: true})
+		}
 	}
 	for _, k := range fsKinds {
 		out = append(out, &FSCase{Engine: "faultsweep", Fault: "propsweep", Recv: k})
@@ -730,6 +842,9 @@ func (fsEngine) Enumerate(tier string) []interface{} {
 	}
 	for i := range histOps {
 		out = append(out, &FSCase{Engine: "faultsweep", Fault: "history", From: i})
+	}
+	for i := range strTemplates {
+		out = append(out, &FSCase{Engine: "faultsweep", Fault: "strsweep", From: i, Pairs: tier == "thorough"})
 	}
 	out = append(out, &FSCase{Engine: "faultsweep", Fault: "oomprobe", Path: "Array.prototype.toLocaleString", Recv: "neg_length", Args: []string{}})
 	out = append(out, &FSCase{Engine: "faultsweep", Fault: "oomprobe", Path: "Array.prototype.join", Recv: "neg_length", Args: []string{}})
